@@ -288,3 +288,25 @@ pub fn build(cfg: &NetCfg, params: Option<&[P]>) -> Result<Network, String> {
 pub fn bits_eq(a: &[f32], b: &[f32]) -> bool {
     a.len() == b.len() && a.iter().zip(b.iter()).all(|(x, y)| x.to_bits() == y.to_bits() || (x.is_nan() && y.is_nan()))
 }
+
+/// Reads the current parameters of the network back into the structure of `template`
+/// (for feedback blocks the first unrolled copy is taken; the copies are tied).
+pub fn read_params(net: &Network, cfg: &NetCfg, template: &[P]) -> Vec<P> {
+    let got = get_params(net);
+    let mut flatv: Vec<f32> = Vec::new();
+    for (_, v) in got.iter() {
+        flatv.extend(v);
+    }
+    let mut ps = template.to_vec();
+    let mut pos = 0;
+    for (li, p) in ps.iter_mut().enumerate() {
+        let copies = match &cfg.layers[li] {
+            LCfg::Feedback { loops, .. } => *loops,
+            _ => 1,
+        };
+        let n = p.count();
+        p.set_flat(&flatv[pos..pos + n]);
+        pos += n * copies;
+    }
+    ps
+}
